@@ -25,8 +25,21 @@ const BASE: u64 = 6 * 2 * 2 * 4 * 2 * (KMAX + 1);
 
 fn log_delivery(m: &M12) {
     match check_payload(&m.data) {
-        Ok((_c, s, q)) => hist::log("deliver", s as i64, q as i64, m.data.len() as i64, ""),
-        Err(e) => hist::log("deliver.bad", m.data.len() as i64, 0, 0, &e),
+        Ok((_c, s, q)) => {
+            hist::log("deliver", s as i64, q as i64, m.data.len() as i64, "");
+            // each message must arrive with exactly its own attachments
+            let want_regs: Vec<Vec<u8>> = if s == 2 { vec![vec![q as u8 + 1; 100]] } else if q == 100 && !m.regs.is_empty() { vec![vec![7u8; 3000]] } else { vec![] };
+            let got_ok = if s == 1 && q == 100 { m.regs.len() <= 1 && m.regs.iter().all(|g| &g[..] == &[7u8; 3000][..]) } else { m.regs.len() == want_regs.len() && m.regs.iter().zip(want_regs.iter()).all(|(g, w)| &g[..] == &w[..]) };
+            if !got_ok {
+                hist::log("attachment.bad", s as i64, q as i64, m.regs.len() as i64, &format!("{} regions of lengths {:?}", m.regs.len(), m.regs.iter().map(|g| g.len()).collect::<Vec<_>>()));
+            }
+            if s != 1 && !m.att.is_empty() {
+                hist::log("attachment.bad", s as i64, q as i64, m.att.len() as i64, "unexpected endpoint attached");
+            }
+        },
+        Err(e) => {
+            hist::log("deliver.bad", m.data.len() as i64, 0, 0, &e);
+        },
     };
 }
 
@@ -219,7 +232,7 @@ impl Scenario for C12S {
                 let mut send = |len: usize| {
                     let d = make_payload(12, 2, q, len);
                     hist::log("send.inv", 2, q as i64, 0, "");
-                    let r = tx.send(M12 { data: d, att: vec![], regs: vec![] });
+                    let r = tx.send(M12 { data: d, att: vec![], regs: vec![IpcSharedMemory::from_bytes(&[q as u8 + 1; 100])] });
                     match r {
                         Ok(()) => hist::log("send.ok", 2, q as i64, 0, ""),
                         Err(e) => hist::log("send.err", 2, q as i64, 0, &e.to_string()),
@@ -267,6 +280,7 @@ impl Scenario for C12S {
                     }
                     delivered.push((e.a, e.b, e.seq));
                 },
+                "attachment.bad" => out.viol("foreign-attachment:recv", format!("message ({},{}) arrived with attachments that are not its own: {}", e.a, e.b, e.s)),
                 "deliver.bad" => out.viol("corrupt-message:recv", format!("a shortened or mixed payload was presented as a complete message: {}", e.s)),
                 "obs.err" => out.viol("recv-error:recv", format!("observer failed: {}", e.s)),
                 _ => {},
@@ -349,6 +363,15 @@ impl Scenario for C12S {
         }
         if obs != "router" && !blocked.iter().any(|b| b.label == "observer") && !evs.iter().any(|e| e.op == "obs.closed" || e.op == "obs.gaveup" || e.op == "obs.err") {
             out.viol("observer-died:recv", "the observer died without a result (panic in the receive path)".into());
+        }
+        // whatever came with an interrupted message must have been released by the time the
+        // observer is through (it drops every message it gets)
+        if obs != "router" && !blocked.iter().any(|b| b.label == "observer") {
+            let gl = sim::g();
+            let stray: Vec<i64> = (0..sim::MAXFD).filter(|&i| gl.fds[i].open && gl.fds[i].via == 1 && gl.fds[i].owner == 0).map(|i| gl.fds[i].lid as i64).collect();
+            if !stray.is_empty() {
+                out.viol("attachment-leak:recv", format!("{} descriptor(s) received with messages are still open in the receiving process after it dropped every message (victim died inside send: {}, crash point {:?})", stray.len(), died_inside, crash_at));
+            }
         }
         for pn in hist::panics() {
             out.viol(&hist::panic_sig(pn), format!("panic in [{}]: {} at {}", pn.label, pn.msg, pn.loc));
